@@ -182,7 +182,7 @@ class Model:
             return self.length(t[2][0])
         if t[0] == "idx" and t[1][0] == "attr" and t[1][2] == "shape" and t[2] == (C(0),):
             return self.length(t[1][1])
-        if t[0] == "call" and t[1] == NP("sum") and len(t[2]) == 1 and not t[3]:
+        if t[0] == "call" and t[1] in (NP("sum"), NP("count_nonzero")) and len(t[2]) == 1 and not t[3]:
             return self.count(t[2][0])
         if t[0] == "ite":
             raise Unrecognised("conditional length %s" % show(t)[:80])
